@@ -238,14 +238,22 @@ def job(cfg):
             for e_ in range(Ne):
                 PE[e_, i_, i_] = PE[e_, i_, i_] + 3  # well away from singular
         full = FeArray.asfearray(np.array(np.broadcast_to(PE[:, None], (Ne, nPg, dim, dim)), dtype=object, copy=True))
-        with facade.symbolic():
-            facade.install()
-            Ab = FeArray.broadcast(PE, Ne, nPg, tensor_ndim=2)
-            detb, invb, trb = Det(Ab), Inv(Ab), Trace(Ab)
-        check("Det(per-element coefficient through FeArray.broadcast)", detb, per_point(Ne, nPg, det_plain, ("F", full)), True)
-        check("Trace(per-element coefficient through FeArray.broadcast)", trb, per_point(Ne, nPg, lambda x: sum(x[i, i] for i in range(dim)), ("F", full)), True)
-        check("Inv(per-element coefficient through FeArray.broadcast) @ mat == I", per_point(Ne, nPg, mm, ("F", invb), ("F", full)), per_point(Ne, nPg, lambda x: np.eye(dim, dtype=int).astype(object), ("F", full)), None)
-        check("per-element coefficient through FeArray.broadcast @ vec", Ab @ v, per_point(Ne, nPg, mm, ("F", full), ("F", v)), True)
+        try:
+            with facade.symbolic():
+                facade.install()
+                Ab = FeArray.broadcast(PE, Ne, nPg, tensor_ndim=2)
+                detb, invb, trb, abv = Det(Ab), Inv(Ab), Trace(Ab), Ab @ v
+            bro_err = None
+        except Exception as e:  # the operation itself fails on the tree under test: a recorded (replayed) violation, not a crash of the job
+            bro_err = e
+        if bro_err is not None:
+            res.record(f"{tag} per-element coefficient through FeArray.broadcast", Outcome("cex", env=dict(ctx().shadow), how="shadow", detail=repr(bro_err)[:120]),
+                       lambda env, e=bro_err: (True, {"op": "Det / Inv / Trace / matmul of FeArray.broadcast(per-element matrices)", "raised": repr(e)[:200]}), key=f"{tag} per-element coefficient through FeArray.broadcast")
+        else:
+            check("Det(per-element coefficient through FeArray.broadcast)", detb, per_point(Ne, nPg, det_plain, ("F", full)), True)
+            check("Trace(per-element coefficient through FeArray.broadcast)", trb, per_point(Ne, nPg, lambda x: sum(x[i, i] for i in range(dim)), ("F", full)), True)
+            check("Inv(per-element coefficient through FeArray.broadcast) @ mat == I", per_point(Ne, nPg, mm, ("F", invb), ("F", full)), per_point(Ne, nPg, lambda x: np.eye(dim, dtype=int).astype(object), ("F", full)), None)
+            check("per-element coefficient through FeArray.broadcast @ vec", abv, per_point(Ne, nPg, mm, ("F", full), ("F", v)), True)
         if 4 in ranks:
             T4, U4 = F[4], G[4]
             check("T4.ddot(mat)", T4.ddot(A), per_point(Ne, nPg, ddot_plain, ("F", T4), ("F", A)), True)
